@@ -352,6 +352,11 @@ def parse_fn_block(lines, i, tname=''):
             elif w[0] == 'rename':
                 spec['rename'] = w[1]
                 cur = None
+            elif w[0] == 'hoist':
+                # //@ hoist <item selector>: an item statement nested in this function body is taken out of it (R18);
+                # the template extracts the same item at module level with its own //@ item / //@ fn directive
+                spec.setdefault('hoists', []).append(d[len('hoist'):].strip())
+                cur = None
             elif w[0] == 'closure-body':
                 spec['closure_of'] = int(w[1])
                 cur = None
@@ -675,6 +680,14 @@ class Gen:
                     raise LostAnchor('loop #%d of %s is not a for loop' % (k, sel))
                 eds.append((lp['in_end'], lp['in_end'], ' %s:' % lspec['iter'], 'A2', ('ann', fnname, 'loop%d.iter' % k)))
             ann(lp['body_open'], lspec['text'], 'loop%d' % k, 'loop%d' % k)
+        # R18: nested item statements (struct / impl inside the body) are removed here and extracted at module level
+        for hsel in spec.get('hoists', []):
+            hit = find_item(text, mask, hsel)
+            if not (bo < hit['start'] and hit['end'] <= bc):
+                raise LostAnchor('hoisted item %s is not inside %s' % (hsel, sel))
+            eds[:] = [e for e in eds if not (hit['start'] <= e[0] and e[1] <= hit['end'])]
+            eds.append((hit['start'], hit['end'], '', 'R18', None))
+            self.report['rules_applied']['R18'] = self.report['rules_applied'].get('R18', 0) + 1
         # declared textual substitutions (R15 and friends): exactly one occurrence required
         for (old_t, new_t) in spec.get('substs', []):
             body_text = text[it['start']:it['end']]
